@@ -15,6 +15,7 @@ DECIDED = [
     "DRAIN: both hand-over queues are provably empty (or drained into a consumer) between the join and the release; no local batch list is dropped while it may hold items",
     "CANCEL-NODE: each cancellation record is enqueued on every path after allocation and released after being consumed",
     "BALANCE: no function returns holding the mutex; the wait is entered with the mutex held",
+    "CANCEL: the inner scheduler's cancel detaches from a list when linked, from the heap only when scheduled, then invokes once (shared with C07)",
     "NOBLOCK: nothing that can invoke a task function (inner cancel/run-all/clean-up) and no client entry point runs while the hand-over mutex is held",
 ]
 NOT_DECIDED = ["which interleaving occurs; exactly-once as a run-time fact (only the schedule-independent protocol shape is decided)",
@@ -38,7 +39,7 @@ def queue_of(fn, node):
 
 def analyse(ctx, replace=None, only=None):
     R = ctx.R
-    P = ctx.program([FILE], "ship", replace=replace)
+    P = ctx.program([FILE, "source/task_scheduler.c"], "ship", replace=replace)
     fns = {f.name: f for f in P.functions_in("thread_scheduler.c")}
     need = ["s_destroy_callback", "s_thread_should_wake", "s_thread_fn", "aws_thread_scheduler_new",
             "aws_thread_scheduler_schedule_future", "aws_thread_scheduler_cancel_task"]
@@ -248,6 +249,11 @@ def analyse(ctx, replace=None, only=None):
         f = fns[name]
         consume_cancel_records(R, f)
     noblock(R, fns)
+    # the inner (single-threaded) scheduler's cancel contract, which the cancellation records rely on
+    from rules import C07
+    tsf = {f.name: f for f in P.functions_in("source/task_scheduler.c")}
+    if R.require("aws_task_scheduler_cancel_task" in tsf, "inner scheduler's cancel_task not found"):
+        C07.cancel_rules(R, tsf)
 
 
 def launch_state(f):
